@@ -6,7 +6,7 @@ import numpy as np
 from qmc import gen as G
 from qmc import oracle as O
 
-MENU = [4.0, 2.0, 1.0, 0.5, 0.25]
+MENU = [4.0, 2.0, 1.0, 0.5, 0.25, 0.125]
 
 
 def spectra(p, menu=MENU, ranks=None):
